@@ -37,6 +37,12 @@ MUTANTS = {
     "c08_sheet_order": ("rp2.balance", "        transactions = sorted(\n            transactions,\n            key=_transaction_time_sort_key,\n        )", "        transactions = sorted(transactions, key=lambda x: x.row)", ["C08"]),
     "c08_ignore_n": ("rp2.balance", "                    and final_balances[from_account] < ZERO\n                    and not configuration.allow_negative_balances\n                ):\n                    raise RP2ValueError(\n                        f'{intra_transaction.asset}", "                    and final_balances[from_account] < ZERO\n                ):\n                    raise RP2ValueError(\n                        f'{intra_transaction.asset}", ["C08"]),
     "c08_tolerance_1e-8": ("rp2.balance", 'Decimal("1." + "0" * 10)', 'Decimal("1." + "0" * 8)', ["C08"]),
+    "c09_avl_le": ("rp2.accounting_engine", "self._get_avl_node_key_with_max_disambiguator(taxable_event.timestamp)\n        )", "self._get_avl_node_key_with_max_disambiguator(taxable_event.timestamp + __import__('datetime').timedelta(days=400))\n        )", ["C09", "C02"]),
+    "c09_ppu_no_todate": ("rp2.computed_data", "            if entry.timestamp.date() > to_date:\n                break\n            transaction: InTransaction", "            transaction: InTransaction", ["C09", "C10"]),
+    "c10_from_incl": ("rp2.abstract_entry_set", "if result.timestamp.date() >= self.__entry_set.from_date:", "if result.timestamp.date() > self.__entry_set.from_date:", ["C10"]),
+    "c10_to_excl": ("rp2.abstract_entry_set", "if result.timestamp.date() > self.__entry_set.to_date:", "if result.timestamp.date() >= self.__entry_set.to_date:", ["C10", "C09"]),
+    "c10_filter_lots": ("rp2.tax_engine", "iter(cast(Iterable[InTransaction], input_data.unfiltered_in_transaction_set))", "iter(cast(Iterable[InTransaction], input_data.filtered_in_transaction_set))", ["C10"]),
+    "c10_numbering_from": ("rp2.gain_loss_set", "            if gain_loss.timestamp.date() > self.to_date:\n                break\n", "            if gain_loss.timestamp.date() > self.to_date:\n                break\n            if gain_loss.timestamp.date() < self.from_date:\n                continue\n", ["C10"]),
 }
 
 
